@@ -52,20 +52,20 @@ type c06job struct {
 	entries  int
 	attacker tak.Color
 	// oracle
-	g        *retroGraph // nil: bounded exhaustive search
-	gi       int
-	hunt     bool
-	seq      []*tak.Position // kind "dfpnseq": one solver proves these in a row
-	seqG     []*retroGraph
-	forceModel bool // compare with the model whatever the cost (thorough tier: one long run WITH repetitions)
-	crossFresh bool // "dfpnseq" without an exact oracle: a solved verdict of the reused solver may not contradict a fresh solver's
-	seqWon   []int // "dfpnseq" of a known finding: the attacker wins call i's root within seqWon[i] plies (0: not known)
-	bigModel bool // follow-up run on a root where repetition was seen: larger model budget
-	rep      int  // DFPN: threefold repetitions met by this run
-	work     uint64
+	g                     *retroGraph // nil: bounded exhaustive search
+	gi                    int
+	hunt                  bool
+	seq                   []*tak.Position // kind "dfpnseq": one solver proves these in a row
+	seqG                  []*retroGraph
+	forceModel            bool  // compare with the model whatever the cost (thorough tier: one long run WITH repetitions)
+	crossFresh            bool  // "dfpnseq" without an exact oracle: a solved verdict of the reused solver may not contradict a fresh solver's
+	seqWon                []int // "dfpnseq" of a known finding: the attacker wins call i's root within seqWon[i] plies (0: not known)
+	bigModel              bool  // follow-up run on a root where repetition was seen: larger model budget
+	rep                   int   // DFPN: threefold repetitions met by this run
+	work                  uint64
 	pn2calls, pn2searched uint64 // PN-squared: second-level searches of this run and the nodes they created
-	crossPN  bool // also ask the PN solver (which has no immediate-threat shortcut): the two verdicts may not contradict
-	modelOK  bool // eligible for the model comparison (cost permitting)
+	crossPN               bool   // also ask the PN solver (which has no immediate-threat shortcut): the two verdicts may not contradict
+	modelOK               bool   // eligible for the model comparison (cost permitting)
 
 	// results
 	l1, l2 string
@@ -1102,6 +1102,52 @@ func runC06(c *ctx) {
 	}
 	c.stat("descendant_streams", int64(descStreams))
 
+	// ANCESTOR streams with the DEFAULT attacker (the side to move of each root): one solver proves a position Y and then a
+	// position X one or three plies ABOVE it, so the attacker changes between the calls and whatever the solver kept about Y
+	// (its root entry included) was computed for the other attacker; also Y, X, Y, X.  A draw below X must not turn into a win.
+	ancStreams := 0
+	for gi, g := range graphs {
+		if gi >= 6 || len(g.sample) == 0 {
+			continue
+		}
+		for tries := 0; ancStreams < 50*c.scale*(gi+1) && tries < 4000*c.scale; tries++ {
+			x := g.sample[c.r.Intn(len(g.sample))]
+			y := x
+			plies := []int{1, 1, 3}[c.r.Intn(3)]
+			ok := true
+			for k := 0; k < plies && ok; k++ {
+				ms := y.AllMoves(nil)
+				q, err := y.Move(ms[c.r.Intn(len(ms))])
+				if err != nil {
+					ok = false
+					break
+				}
+				if over, _ := q.GameOver(); over {
+					ok = false
+					break
+				}
+				y = q
+			}
+			if !ok || y == x {
+				continue
+			}
+			j := &c06job{kind: "dfpnseq", modelOK: ancStreams%6 == 0}
+			j.entries = []int{64, 1024, 1 << 16}[c.r.Intn(3)]
+			j.attacker = tak.NoColor
+			j.seq = []*tak.Position{y, x}
+			if c.r.Intn(2) == 0 {
+				j.seq = []*tak.Position{y, x, y, x}
+			}
+			for range j.seq {
+				j.seqG = append(j.seqG, g)
+			}
+			j.root = y
+			jobs = append(jobs, j)
+			ancStreams++
+		}
+	}
+	c.stat("ancestor_streams_default_attacker", int64(ancStreams))
+
 	// LONG-LIVED solver: a search, then hundreds of calls that each force the solver to forget its storage (finished
 	// games of another board size with alternating sides to move: nothing is searched, but attacker or size differ from
 	// the previous call every time), then a search of a neighbouring position of the first game with the other attacker.
@@ -1989,7 +2035,6 @@ func c06probe(c *ctx) {
 	fmt.Fprintf(os.Stderr, "size %d pieces %d caps %d: nodes %d edges %d  attractor W %d (max %d) B %d (max %d) root W %d B %d  %v\n",
 		sz, pc, cp, len(g.term), g.edges, in[0], mx[0], in[1], mx[1], g.dist[0][0], g.dist[1][0], time.Since(t0))
 }
-
 
 // ---------- the replayed sequences of the repetition/table finding ----------
 
